@@ -63,6 +63,17 @@ def case(cid, rng, kind, padded, est):
         X = (np.clip(X, -2, 2) + rng.integers(1, 3, size=f)) * Qden           # uncentred source (small: the residual stays in range)
         Y = (X @ Qm) // Qden + rng.integers(-2, 3, size=t) * Qden
         est = "default"
+    elif kind == "single-target":
+        # one target in projector mode: the only thing left to decide is a sign; uncentred data (the default linear fit has an
+        # intercept, the orthogonal map has none), a negative dependence, or a constant target
+        t = 1
+        X = rng.integers(-2, 3, size=(n, f)) + int(rng.integers(2, 6))
+        wv = -rng.integers(1, 3, size=(f, 1))
+        Y = X @ wv + rng.integers(-1, 2, size=(n, 1)) + int(rng.integers(8, 20))
+        Y = np.clip(Y, -25, 25)
+        if rng.random() < 0.3:
+            Y[:] = int(rng.integers(1, 6))
+        est = "default"
     elif kind == "rankdef":
         # a linear fit of deficient rank: a repeated target column, or a duplicated source column (any data is valid data)
         f, t = max(f, 2), max(t, 2)
@@ -125,8 +136,8 @@ def gen(args):
     rng = np.random.default_rng([sd, wid, 1818])
     out = []
     for i in core.timed(range(n)):
-        kind = ["random", "noisy-linear", "recover", "random", "noisy-linear", "rankdef", "offset"][i % 7]
-        padded = bool(rng.integers(2)) if kind not in ("offset", "rankdef") else False
+        kind = ["random", "noisy-linear", "recover", "random", "noisy-linear", "rankdef", "offset", "single-target"][i % 8]
+        padded = bool(rng.integers(2)) if kind not in ("offset", "rankdef", "single-target") else False
         est = "default" if padded else ["default", "lr0", "ridge"][int(rng.integers(3))]
         out.append(case("w%d-%d" % (wid, i), rng, kind, padded, est))
     return out
